@@ -192,6 +192,34 @@ def run(chk):
         chk.ok("C12.fragcap", pz[0][0], "too many buffered fragments of one frame pause reading")
     else:
         chk.violation("C12.fragcap", fd, "self.queue._protocol.pause_reading()", "(len(self._payload_fragments) > self._max_fragments)", "a frame delivered in very many tiny reads is buffered without back-pressure")
+    # ---- C12.mask: the key stored for a masked frame is used only for a frame whose own mask bit is set --------------
+    # _frame_mask is assigned only when a masked frame's key is read and is never cleared: it survives into later frames.
+    fdn = repo.func(MOD, f"{WR}._feed_data")
+    nm = 0
+    for n in ast.walk(fdn.node):
+        if not (isinstance(n, ast.Attribute) and n.attr == "_frame_mask" and isinstance(n.ctx, ast.Load)):
+            continue
+        st = K.stmt_of(n)
+        if isinstance(st, ast.Assert):
+            continue
+        nm += 1
+        if PC.has_lit(PC.pc(n), "self._has_mask", True) is not None:
+            chk.ok("C12.mask", n, "the stored masking key is read only under this frame's mask bit (self._has_mask)")
+        else:
+            chk.violation("C12.mask", n, K.short(st, 70), "self._has_mask",
+                          "the masking key of an earlier frame is consulted for a frame whose own mask bit is not known to be set: after one masked frame every later unmasked frame is XOR-ed with the stale key",
+                          path_condition=norm.fmt_cnf(PC.pc(n)))
+    for c in prog.calls_in(fdn.node):
+        if isinstance(c.func, ast.Name) and c.func.id == "websocket_mask":
+            nm += 1
+            if c.args and norm.raw(c.args[0]) == "self._frame_mask" and PC.has_lit(PC.pc(c), "self._has_mask", True) is not None:
+                chk.ok("C12.mask", c, "payload is unmasked with the frame's own key, exactly when its mask bit is set")
+            else:
+                chk.violation("C12.mask", c, K.short(c), "websocket_mask(self._frame_mask, ...) under self._has_mask", "payload unmasked under a condition other than the frame's mask bit")
+    chk.expect_count("C12.mask", nm, 4, "uses of the stored masking key / unmask calls")
+    for fn, hits in prog.writers(repo, [MOD], "_frame_mask").items():
+        if fn.name not in ("__init__", "_feed_data"):
+            chk.violation("C12.mask", hits[0][0], K.short(hits[0][0]), f"writer {fn.qualname}", "the masking key is written outside the frame parser")
     # ---- C12.latch ---------------------------------------------------------------------------------------------------
     fdd = repo.func(MOD, f"{WR}.feed_data")
     gg = cfg_of(fdd.node)
